@@ -755,7 +755,14 @@ func (gc *GraphCase) objectInstance(t *rapid.T, n *ref.SNode, keysOpt bool, budg
 	}
 	// additional keys
 	if rapid.IntRange(0, 2).Draw(t, label+"Extra") == 0 {
-		key := rapid.SampledFrom([]string{"zz", "extra", "a", "kab", "é"}).Draw(t, label+"ExtraKey")
+		extraKeys := []string{"zz", "extra", "a", "kab", "é"}
+		for _, mp := range props {
+			if mp.p.Shortcut {
+				// a document key spelled like the name of the shortcut's type is an ordinary unknown key
+				extraKeys = append(extraKeys, mp.p.Key, mp.p.Key)
+			}
+		}
+		key := rapid.SampledFrom(extraKeys).Draw(t, label+"ExtraKey")
 		var val *ref.Value
 		mode := ""
 		if ap != nil {
